@@ -150,6 +150,13 @@ TypesOK(s, o) == \A i \in RealIdx(o) :
              /\ (Cardinality(EndsOf(r)) = 2 => <<e[1][1], e[1][2]>> # <<e[2][1], e[2][2]>>)
              /\ e[3] = e[2] /\ e[4] = e[1])
 
+\* external sequences: names and the fragments filed under each
+ExternalsOK(s, o) ==
+  /\ {o.ext[k][1] : k \in DOMAIN o.ext} = ExternalNames(s)
+  /\ \A k \in DOMAIN o.ext :
+        /\ \A j \in DOMAIN o.ext[k][2] : o.ext[k][2][j] >= 1
+        /\ BagOf(SeqMap(LAMBDA i : NormRec(o.lines[i]), o.ext[k][2])) = FragmentsOf(s, o.ext[k][1])
+
 \* identifiers and lookup (C09)
 LoggedVirtNames(o) == {Rec(o.lines[i]).name : i \in {j \in VirtIdx(o) : Rec(o.lines[j]).rt = "S"}}
 NamesOK(s, d, o) ==
@@ -196,6 +203,7 @@ ExpFails(s, o) ==
   \cup (IF Closed(o) /\ ~FlagsOK(s, o) THEN {"flags"} ELSE {})
   \cup (IF NbrsOK(s, d, o) THEN {} ELSE {"nbrs"})
   \cup (IF TypesOK(s, o) THEN {} ELSE {"etype"})
+  \cup (IF ExternalsOK(s, o) THEN {} ELSE {"externals"})
   \cup (IF NamesOK(s, d, o) THEN {} ELSE {"names"})
   \cup (IF LookupListed(o) /\ ~LookupOK(s, d, o) THEN {"lookup"} ELSE {})
   \cup (IF TopoOK(s, d, o) THEN {} ELSE {"components"})
